@@ -38,12 +38,13 @@ type c12Sys struct {
 	gsd2  *grpc.ServiceDesc
 	bad   *grpc.ServiceDesc
 
-	hmu      sync.Mutex
-	ops      []porcupine.Operation
-	clock    int64
-	snaps    []snapRec
-	failures []string
-	initFP   string
+	hmu         sync.Mutex
+	ops         []porcupine.Operation
+	clock       int64
+	snaps       []snapRec
+	failures    []string
+	initFP      string
+	finalProbed bool
 }
 
 type snapRec struct {
@@ -313,6 +314,16 @@ func c12Check(pre string) func(sys any, x *sched.S) []e3Fail {
 				break
 			}
 		}
+		// final state: once every thread has returned, one more request per service joins the
+		// history (it starts after every other operation returned, so it must be explained by
+		// the state all completed writers leave behind: a lost registration shows here even if
+		// no concurrent reader happened to look)
+		if !s.finalProbed {
+			s.finalProbed = true
+			for _, svc := range []string{"S1", "S2", "S3"} {
+				s.request(90, svc, "/route")
+			}
+		}
 		// linearizability against the registry specification
 		model := c12Model
 		if initB3 || initS2 {
@@ -388,6 +399,10 @@ func c12Scenarios(thorough bool) []*e3Scenario {
 			c12Thread(2, "reader", []c12Op{rq("S2", "/route"), rq("S2", "/route"), rq("S1", "/implicit")})),
 	}
 	scs = append(scs,
+		mk("drop-vs-register", "DropConn(b3) of a registered connection races with RegisterService(S2): neither update may be lost", "b3",
+			c12Thread(0, "writer1", []c12Op{{op: "dropB3"}}),
+			c12Thread(1, "writer2", []c12Op{{op: "regS2"}}),
+			c12Thread(2, "reader", []c12Op{rq("S2", "/route"), rq("S2", "/grpc")})),
 		mk("drop-older-of-two-owners", "S2 is served by b3 (registered first) and a local service; DropConn(b3) runs while readers ask S2", "b3,s2",
 			c12Thread(0, "writer", []c12Op{{op: "dropB3"}}),
 			c12Thread(1, "reader1", []c12Op{rq("S2", "/route"), rq("S2", "/implicit")}),
@@ -413,7 +428,7 @@ func runC12(c *Ctx) {
 	if c.Thorough() {
 		bound, per = 4, 6*time.Minute
 	}
-	r.Rule(fmt.Sprintf("scenarios of 3-4 controlled threads (writers: RegisterService, a registration failing on its second method, RegisterConn, DropConn; readers: 2-3 requests each over rule route / implicit route / gRPC for S1, S2, S3) on the real Mux; every interleaving of the scheduling points (Mutex lock/unlock, atomic.Value Load/Store, WaitGroup ops) with at most %d preemptions, bounds iterated from 0; oracles per schedule: porcupine linearizability of the call/return history against the registry specification, immutability of every published snapshot (fingerprint at Store time vs. end of schedule), a failing registration leaves the snapshot fingerprint unchanged, no panic, no deadlock; distinct = (scenario, observed outcome vector)", bound))
+	r.Rule(fmt.Sprintf("scenarios of 3-4 controlled threads (writers: RegisterService, a registration failing on its second method, RegisterConn, DropConn; readers: 2-3 requests each over rule route / implicit route / gRPC for S1, S2, S3) on the real Mux; every interleaving of the scheduling points (Mutex lock/unlock, atomic.Value Load/Store, WaitGroup ops) with at most %d preemptions, bounds iterated from 0; oracles per schedule: porcupine linearizability of the call/return history (plus one request per service issued after all threads returned) against the registry specification, immutability of every published snapshot (fingerprint at Store time vs. end of schedule), a failing registration leaves the snapshot fingerprint unchanged, no panic, no deadlock; distinct = (scenario, observed outcome vector)", bound))
 	r.Assume("unsynchronised accesses between scheduling points are not interleaved by the explorer; they are covered by the published-snapshot immutability monitor and by the separate free-running -race pass", "pool operations are not scheduling points in C12 scenarios (C13 covers them)")
 	runScenarios(c, c12Scenarios(c.Thorough()), bound, per, maxExec)
 	if c.Shards == 0 {
